@@ -177,7 +177,7 @@ func linEvents(threads []*linThread) (int, []map[string]any) {
 	}
 	ids := map[string]int{}
 	id := func(v string) int {
-		if v == "" || v == unknownVersion {
+		if isUnknownVersion(v) {
 			return 0
 		}
 		if x, ok := ids[v]; ok {
@@ -362,7 +362,7 @@ func (th *linThread) casArg(k, sel string) string {
 			return v
 		}
 	}
-	return unknownVersion
+	return someUnknownVersion()
 }
 
 // do performs one operation: draw s1, call, draw s2.  A panic of the library is a reply ("other: panic").
